@@ -183,7 +183,11 @@ class C10(Spec):
         return ob["kind"] in ("F", "R", "S") and (r["task"].startswith("id_of") or ob["kind"] == "F")
 
     def table_obligations(self, repo, tabs):
-        return vocab_table_obligations(repo, tabs, extras_only=True) + read_frame_obligations(repo, tabs)
+        # the base URI of a document is what the class's own id_of says (RefResolver.from_schema; Validator.__init__ hands it the class's id_of: C16)
+        base = [r for r in resolver_table_obligations(repo) if "from_schema" in r["name"]]
+        for r in base:
+            r["rt_search"] = [("pyvc.rt_kw", {"cmd": "search_extras"}, "kw")]
+        return vocab_table_obligations(repo, tabs, extras_only=True) + read_frame_obligations(repo, tabs) + base
 
     def failure_kinds(self):
         return ("F", "S", "X")
@@ -832,9 +836,21 @@ class C17(Spec):
         return ("T",)
 
     def table_obligations(self, repo, tabs):
+        import ast as _ast
         w, _ = write_frame_obligations(repo, tabs, ["exceptions:ErrorTree.__contains__", "exceptions:ErrorTree.__iter__", "exceptions:ErrorTree.__len__",
                                                     "exceptions:ErrorTree.total_errors"], [], "ErrorTree queries")
-        return [r for r in w if not r["name"].startswith("frames/")]
+        recs = [r for r in w if not r["name"].startswith("frames/")]
+        # the node model says "a node that never received an error has no recorded instance": the class-level default of
+        # `_instance` must be the very sentinel that __getitem__ compares with (`is _unset`), a single module-level object
+        cls = [n for n in _ast.walk(repo.trees["exceptions"]) if isinstance(n, _ast.ClassDef) and n.name == "ErrorTree"]
+        dflt = [_ast.unparse(st.value) for c in cls for st in c.body if isinstance(st, _ast.Assign) and any(isinstance(t, _ast.Name) and t.id == "_instance" for t in st.targets)]
+        sent = [_ast.unparse(st.value) for st in repo.trees["exceptions"].body if isinstance(st, _ast.Assign) and any(isinstance(t, _ast.Name) and t.id == "_unset" for t in st.targets)]
+        uses = [_ast.unparse(c) for f in ("exceptions:ErrorTree.__getitem__",) for c in _ast.walk(repo.units[f].node) if isinstance(c, _ast.Compare) and "_instance" in _ast.unparse(c)]
+        ok = dflt == ["_unset"] and len(sent) == 1 and all("_unset" in u and ("is not" in u or " is " in u) for u in uses) and bool(uses)
+        recs.append({"name": "exceptions:ErrorTree/T/instance-sentinel", "kind": "T", "status": "discharged" if ok else "failed", "solver": "tables",
+                     "note": "ErrorTree._instance defaults to the module's single `_unset` object, the one __getitem__ tests identity against (default %s, sentinel %s, tests %s)" % (dflt, sent, uses),
+                     "rt_search": [("pyvc.rt_tree", {"cmd": "search"}, "tree")]})
+        return recs
 
     def standins(self, root, tier):
         from pyvc import driver
@@ -897,10 +913,11 @@ class C02(Spec):
         from contracts import tasks_resolver
         from contracts import tasks_derive
         return (tasks_resolver.resolver_tasks(root, 2 * _tmo(tier), which=RESOLVER_ALL) + tasks_derive.uridict_tasks(root, _tmo(tier)) +
+                [tasks_core.IdOfTask(root, d) for d in drafts.DRAFTS] +      # which member establishes the base URI in each draft
                 tasks_core.core_tasks(root, 2 * _tmo(tier), which=("iter_errors",)) + tasks_core.core_tasks(root, _tmo(tier), which=("iter_errors_x", "ref_x")) + [tasks_core.CoreTask(root, 7, "scope_cm_x", _tmo(tier))])
 
     def select(self, ob, r):
-        if r["task"].startswith(("validators:RefResolver.", "uridict:")):
+        if r["task"].startswith(("validators:RefResolver.", "uridict:", "id_of")):
             return True
         return "/F/structure" in ob["name"] or "/F/verdict" in ob["name"] or ob["kind"] == "X"
 
